@@ -155,6 +155,9 @@ case("continue guard in a loop body is a conditional rest", {"m": "def f(xs, g, 
 case("continue guard kept: it sits in a nested block (the statements after that block are skipped too)", {"m": "def f(xs, g, h, l):\n    for x in xs:\n        with l:\n            if x is None:\n                continue\n            g(x)\n        h(x)\n"}, "m", "f", has=["continue"])
 case("copy-back with reads before the copy: the helper's local is the caller's variable", {"m": "class A(object):\n    def _h(self, x):\n        a = self.o(x)\n        self.p(a)\n        return a\n    def f(self, x, l):\n        with l:\n            a = self._h(x)\n        self.c(a)\n"}, "m", "f", has=["a = self.o(x)", "self.p(a)"], lacks=["_i1_"])
 case("copy-back kept: a handler of an enclosing try reads the caller's variable (it must still hold the old value when the helper fails half-way)", {"m": "class A(object):\n    def _h(self, x):\n        a = self.o(x)\n        self.p(a)\n        return a\n    def f(self, x):\n        a = None\n        try:\n            a = self._h(x)\n        except ValueError:\n            self.c(a)\n        return a\n"}, "m", "f", has=["self.p(_i"])
+case("constant index into a call-free display, as the whole right-hand side", {"m": "def f(o, t):\n    o.x = (t,)[0]\n    return o\n"}, "m", "f", has=["o.x = t"])
+case("constant index kept: an element is a call (it would no longer be evaluated)", {"m": "def f(o, t, g):\n    o.x = (t, g())[0]\n    return o\n"}, "m", "f", has=["g()"])
+case("a helper with a tuple-of-literals default is inlined (the flag is a 1-tuple or empty)", {"m": "class A(object):\n    def _h(self, x, extra=()):\n        if extra:\n            self.t = extra[0]\n        return self.r(x)\n    def f(self, a, b):\n        return self._h(a, (b,))\n    def g(self, a):\n        return self._h(a)\n"}, "m", "f", has=["self.t = b"], lacks=["_h("])
 # -- MODTABLE / class flattening / STAR -------------------------------------------------------------------------------------------
 case("modtable kept: the loop variable is read afterwards", {"m": "T = {}\nfor k in (1, 2):\n    T[k] = k + 1\nLAST = k\ndef f():\n    return T\n"}, "m", "f", has=["return T"])
 case("star expanded through the attribute's class", {"h": "class S(object):\n    def get(self, a, b):\n        return (a, b)\n", "m": "from .h import S\nclass A(object):\n    def __init__(self):\n        self._s = S()\n    def f(self, k):\n        return self._s.get(*k)\n"},
